@@ -617,6 +617,7 @@ class Interp:
         self.models = models          # dict name -> python function
         self.overrides = overrides or {}   # full/short fn name -> python function(interp, args) replacing a crate fn
         self.depth = 0
+        self.max_depth = 0
         self.callstack = []
         self.trace = False
         self.encoded = set()
@@ -1168,6 +1169,8 @@ class Interp:
         if len(args) != len(fn.args):
             raise Unsupported('arity mismatch calling %s: %d vs %d' % (fn.name, len(args), len(fn.args)))
         self.depth += 1
+        if self.depth > self.max_depth:
+            self.max_depth = self.depth
         if self.depth > 200:
             raise BoundHit('call depth')
         self.callstack.append(fn.name)
